@@ -59,7 +59,7 @@ def run_one(job):
         shutil.rmtree(wt, ignore_errors=True)
 
 
-def run(props, workers=4):
+def run(props, workers=int(os.environ.get("PYVC_MUTANT_WORKERS", "4"))):
     jobs = [(p, rel, patch) for p in props for rel, patch in catalogue(p)]
     with cf.ThreadPoolExecutor(max_workers=workers) as ex:
         res = list(ex.map(run_one, jobs))
